@@ -1734,16 +1734,16 @@ impl UnifiedCommandExecutor {
             BitCommand::BitCount { key, start, end } => {
                 match self.storage.get_string(db, &key)? {
                     Some(value) => {
-                        let (start_byte, end_byte) = if let (Some(s), Some(e)) = (start, end) {
-                            let len = value.len() as isize;
-                            let start_pos = if s < 0 { (len + s).max(0) } else { s.min(len - 1) } as usize;
-                            let end_pos = if e < 0 { (len + e).max(0) } else { e.min(len - 1) } as usize;
-                            (start_pos, end_pos)
-                        } else {
-                            (0, value.len().saturating_sub(1))
+                        let len = value.len() as isize;
+                        let (mut s, mut e) = match (start, end) {
+                            (Some(s), Some(e)) => (s, e),
+                            _ => (0, len - 1),
                         };
-                        
-                        let slice = &value[start_byte..=end_byte.min(value.len().saturating_sub(1))];
+                        // negative indices count from the end; an empty or inverted range counts nothing
+                        if s < 0 { s = s.saturating_add(len).max(0); }
+                        if e < 0 { e = e.saturating_add(len).max(0); }
+                        if e >= len { e = len - 1; }
+                        let slice: &[u8] = if len == 0 || s > e { &[] } else { &value[s as usize..=e as usize] };
                         let bit_count = slice.iter().map(|&byte| byte.count_ones() as i64).sum::<i64>();
                         Ok(RespFrame::Integer(bit_count))
                     }
